@@ -43,6 +43,10 @@ type Options struct {
 	BlocksOfEpoch uint64 // e.g. 4
 	MinVote       uint64 // MinValidatorVoteNum; keep huge so that the federation stays effective
 	VotePending   uint64 // blocks a vote output stays locked
+	// VotePendingSwitch > 0: from that height on the lock is VotePendingLate blocks (a two-range
+	// schedule like mainnet's, whose lock lengthens at a fixed height)
+	VotePendingSwitch uint64
+	VotePendingLate   uint64
 }
 
 func DefaultOptions() Options {
@@ -99,6 +103,11 @@ func Init(o Options) *World {
 	consensus.ActiveNetParams.BlocksOfEpoch = o.BlocksOfEpoch
 	consensus.ActiveNetParams.MinValidatorVoteNum = o.MinVote
 	consensus.ActiveNetParams.VotePendingBlockNums = []consensus.VotePendingBlockNum{{BeginBlock: 0, EndBlock: ^uint64(0), Num: o.VotePending}}
+	if o.VotePendingSwitch > 0 {
+		consensus.ActiveNetParams.VotePendingBlockNums = []consensus.VotePendingBlockNum{
+			{BeginBlock: 0, EndBlock: o.VotePendingSwitch, Num: o.VotePending},
+			{BeginBlock: o.VotePendingSwitch, EndBlock: ^uint64(0), Num: o.VotePendingLate}}
+	}
 	config.CommonConfig = config.DefaultConfig()
 	k := w.Keys[o.LocalKey]
 	config.CommonConfig.XPrv = &k
